@@ -88,10 +88,7 @@ func (v *SliceSchema) validate(ctx *p.SchemaCtx) {
 	if isZeroVal || refVal.Len() == 0 {
 		if v.defaultVal != nil {
 			// copy the default: the validated value must not share memory with the schema
-			def := reflect.ValueOf(v.defaultVal)
-			cp := reflect.MakeSlice(refVal.Type(), def.Len(), def.Len())
-			reflect.Copy(cp, def)
-			refVal.Set(cp)
+			refVal.Set(copySliceDeep(reflect.ValueOf(v.defaultVal)))
 		} else if v.required == nil {
 			return
 		} else {
@@ -338,6 +335,22 @@ func (v *SliceSchema) Contains(value any, options ...TestOption) *SliceSchema {
 	}
 	v.tests = append(v.tests, t)
 	return v
+}
+
+// copySliceDeep copies a slice value; nested slices are copied too, so that no backing array is shared
+func copySliceDeep(src reflect.Value) reflect.Value {
+	if src.Kind() != reflect.Slice || src.IsNil() {
+		return src
+	}
+	cp := reflect.MakeSlice(src.Type(), src.Len(), src.Len())
+	if src.Type().Elem().Kind() == reflect.Slice {
+		for i := 0; i < src.Len(); i++ {
+			cp.Index(i).Set(copySliceDeep(src.Index(i)))
+		}
+	} else {
+		reflect.Copy(cp, src)
+	}
+	return cp
 }
 
 func sliceMin(n int) (Test, BoolTFunc) {
